@@ -243,9 +243,20 @@ func c19use(p *Prog, r *Report) {
 		allowed := map[string]bool{"NewPeerSet": true, "initMaps": true, "Unmarshal": true}
 		var bad []string
 		for _, w := range p.writersOf(f) {
-			if !allowed[w.Fn.Name()] {
-				bad = append(bad, fnName(w.Fn)+"@"+p.ipos(w.Instr))
+			if allowed[w.Fn.Name()] {
+				continue
 			}
+			// construction of a NEW set in another function: the object is allocated there; if it
+			// starts as a struct copy of an existing set, every memoised value must be reset
+			if w.Fresh {
+				if missing := staleMemoAfterCopy(p, w); len(missing) == 0 {
+					continue
+				} else {
+					bad = append(bad, fnName(w.Fn)+"@"+p.ipos(w.Instr)+" (copied set keeps "+strings.Join(missing, ", ")+")")
+					continue
+				}
+			}
+			bad = append(bad, fnName(w.Fn)+"@"+p.ipos(w.Instr))
 		}
 		r.Check(len(bad) == 0, rule, "PeerSet."+name+":writers", "-", "", "immutable after construction", "PeerSet."+name+" mutated after construction (memoised thresholds and hash would go stale): "+strings.Join(bad, ", "))
 	}
@@ -262,6 +273,10 @@ func c19use(p *Prog, r *Report) {
 				continue
 			}
 			if bi, isB := c.Call.Value.(*ssa.Builtin); isB && bi.Name() == "append" {
+				// the append that adds the new peer (a copy of the existing list is not concerned)
+				if len(c.Call.Args) < 2 || len(wnp.Params) < 2 || !dependsOn(c.Call.Args[1], func(x ssa.Value) bool { return x == ssa.Value(wnp.Params[1]) }) {
+					continue
+				}
 				n++
 				q := func(l Lit) bool {
 					lk, present, ok := lookupLit(l)
@@ -279,4 +294,58 @@ func c19use(p *Prog, r *Report) {
 	if n == 0 {
 		r.Fail(rule, "WithNewPeer:no-duplicates", p.pos(wnp.Pos()), fnName(wnp), "no append found in WithNewPeer")
 	}
+}
+
+// staleMemoAfterCopy: w writes a field of a PeerSet allocated in w.Fn. If that object was
+// initialised by copying another PeerSet (`cp := *old`), returns the memo fields that are not reset
+// to their zero value in the function.
+func staleMemoAfterCopy(p *Prog, w *FieldWrite) []string {
+	st, ok := w.Instr.(*ssa.Store)
+	if !ok {
+		return nil
+	}
+	fa, ok := st.Addr.(*ssa.FieldAddr)
+	if !ok {
+		return nil
+	}
+	al, ok := fa.X.(*ssa.Alloc)
+	if !ok {
+		return []string{"(object not a local allocation)"}
+	}
+	copied := false
+	reset := map[string]bool{}
+	if refs := al.Referrers(); refs != nil {
+		for _, rf := range *refs {
+			switch x := rf.(type) {
+			case *ssa.Store:
+				if x.Addr == ssa.Value(al) {
+					copied = true
+				}
+			case *ssa.FieldAddr:
+				fv := fieldVar(al.Type(), x.Field)
+				if fv == nil {
+					continue
+				}
+				if fr := x.Referrers(); fr != nil {
+					for _, u := range *fr {
+						if s2, isSt := u.(*ssa.Store); isSt && s2.Addr == ssa.Value(x) {
+							if c, isC := s2.Val.(*ssa.Const); isC && (c.Value == nil || c.Value.String() == `""`) {
+								reset[fv.Name()] = true
+							}
+						}
+					}
+				}
+			}
+		}
+	}
+	if !copied {
+		return nil
+	}
+	var missing []string
+	for _, m := range []string{"hash", "hex", "superMajority", "trustCount"} {
+		if f := p.Field(PEER, "PeerSet", m); f != nil && !reset[f.Name()] {
+			missing = append(missing, m)
+		}
+	}
+	return missing
 }
